@@ -637,3 +637,41 @@ func ZZ_C12_copy_binding_kinds() {
 		zz.Assert(!tf1, "C12.copy-binding-kinds/operation-took-effect/"+id)
 	}
 }
+
+// ZZ_C12_invalid_requests: a request that cannot be honoured returns an error and
+// leaves every scope unchanged: binding a name to a reflect.Value that could not
+// be read back (the zero Value, a value reached through an unexported field),
+// dotted names, unknown names.
+func ZZ_C12_invalid_requests() {
+	v := zz.Int64()
+	e := NewEnv()
+	e.Define("a", v)
+	type hidden struct{ n int64 }
+	bad := []reflect.Value{{}, reflect.ValueOf(hidden{3}).Field(0)}[zz.Choose(2)]
+	var err error
+	p := false
+	op := zz.Choose(4)
+	p = zzGuard(func() {
+		switch op {
+		case 0:
+			err = e.DefineValue("z", bad)
+		case 1:
+			err = e.SetValue("a", bad)
+		case 2:
+			err = e.NewEnv().SetValue("a", bad)
+		case 3:
+			err = e.DefineValue("a", bad)
+		}
+	})
+	id := []string{"DefineValue", "SetValue", "SetValue-from-child", "DefineValue-over-existing"}[op]
+	zz.Assert(!p, "C12.invalid-request/no-panic/"+id)
+	zz.Assert(err != nil, "C12.invalid-request/is-an-error/"+id)
+	// every binding can still be read, and reads what it held
+	var x interface{}
+	var gerr error
+	p2 := zzGuard(func() { x, gerr = e.Get("a") })
+	xi, ok := x.(int64)
+	zz.Assert(!p2 && gerr == nil && ok && xi == v, "C12.invalid-request/leaves-scopes-unchanged/"+id)
+	p3 := zzGuard(func() { _, gerr = e.Get("z") })
+	zz.Assert(!p3 && gerr != nil, "C12.invalid-request/leaves-scopes-unchanged/"+id)
+}
